@@ -66,7 +66,7 @@ class RewriteMonitor(Monitor):
         self.pre_count = None
         self.pre_dists = None
         self.pre_params = None
-        if op["op"] == "copy" and w.has("c", op.get("c")):
+        if op["op"] in ("copy", *REWRITES) and w.has("c", op.get("c")):
             try:
                 self.pre_params = [id(p) for p in
                                    w.pool["c"][op["c"]].get_all_params()]
@@ -113,6 +113,18 @@ class RewriteMonitor(Monitor):
                                      f"{key}: U_full changed by {k} (max "
                                      f"{_maxdiff(old[4], new[4])})"))
                 c = w.pool["c"][op["c"]]
+                # an in-place rewrite keeps the circuit's own Parameter objects
+                if self.pre_params is not None:
+                    try:
+                        now = sorted(id(p) for p in c.get_all_params())
+                    except Exception:  # noqa: BLE001
+                        now = None
+                    if now is not None and now != sorted(self.pre_params):
+                        vs.append(self.v({"kind": "rewrite_changed_parameters",
+                                          "op": k},
+                                         f"{key}: get_all_params() listed "
+                                         f"{len(self.pre_params)} objects before "
+                                         f"{k}, {len(now)} (or other objects) after"))
                 spec = c._get_circuit_spec()
                 if k == "unpack" and _has_group(spec):
                     vs.append(self.v({"kind": "group_remains", "op": k}, str(key)))
